@@ -163,6 +163,9 @@ class Program:
                     except RecursionError as e:  # pragma: no cover
                         raise AnalysisError("normalisation of %s failed: %s" % (rel, e))
                     if mod.pyx is not None:
+                        for new_q, old_q in self.norm_info[rel].get("renamed_functions", []):
+                            if new_q in mod.pyx.functions and old_q not in mod.pyx.functions:
+                                mod.pyx.functions[old_q] = mod.pyx.functions.pop(new_q)
                         # local renames done by the normal form are mirrored in the side table of declared C locals
                         import re as _re
 
